@@ -3,6 +3,12 @@
 //@   attr #[verifier::reject_recursive_types(ExecC)]
 //@   attr #[verifier::reject_recursive_types(QueryC)]
 //@ end
+pub open spec fn raw_query_post<ExecC, QueryC>(router: &dyn CosmosRouter<ExecC, QueryC>, st: St, block: BlockInfo, bytes: Seq<u8>, r: QuerierResult) -> bool {
+    match spec_from_json::<QueryRequest<QueryC>>(bytes) {
+        Err(_) => r is Err,
+        Ok(req) => r matches SystemResult::Ok(cr) && (match router.query_sem(st, block, req) { Ok(b) => cr == ContractResult::<Binary>::Ok(b), Err(_) => cr is Err }),
+    }
+}
 impl<'a, ExecC, QueryC> Querier for RouterQuerier<'a, ExecC, QueryC> {
     // a RouterQuerier answers from the store and block it was built over
     open spec fn snap(&self) -> (St, BlockInfo) { (self.storage.view(), *self.block_info) }
@@ -13,5 +19,14 @@ impl<'a, ExecC, QueryC> Querier for RouterQuerier<'a, ExecC, QueryC> {
 //@   ret r
 //@   ensures [C10.rq.snapshot] r.snap() == (storage.view(), *block_info)
 //@ end
+// the answer a contract (or a user through App::wrap) gets: the request is decoded, routed by Router::query over exactly
+// the store and block the querier was built over, and the module's answer comes back inside the two envelopes
+// (Ok(Ok(bytes)) for an answer, Ok(Err(text)) for a module failure, Err(InvalidRequest) when the bytes are no request)
+//@ fn src/app.rs :: Querier for RouterQuerier :: raw_query
+//@   ret r
+//@   ensures [C10.rq.answer,C17,C08] raw_query_post::<ExecC, QueryC>(self.router, self.storage.view(), *self.block_info, bin_request@, r)
+//@   replace "match from_json(bin_request) {" => "match from_json(bin_request.to_vec()) {"
+//@   replace "request: bin_request.into()," => "request: binary_from_slice(bin_request),"
+//@   replace_re "let contract_result: ContractResult<Binary> = self\\s*\\.router\\s*\\.query\\(self\\.api, self\\.storage, self\\.block_info, request\\)\\s*\\.into\\(\\);" => "let contract_result: ContractResult<Binary> = any_to_contract_result(self.router.query(self.api, self.storage, self.block_info, request));"
+//@ end
 }
-
